@@ -527,9 +527,10 @@ def enumerations(tier):
     A2 = ["a1", "a2"]
     E = [
         ("fn/1x1/rw/dt1-59-61-121", "fn", alphabet(U1, A1, [1, 0], [1, 59, 61, 121]), 7 if q else 8),
-        ("fn/1x1/rw/dt1-60-61", "fn", alphabet(U1, A1, [1, 0], [1, 60, 61]), 8 if q else 10),
+        ("fn/1x1/rw/dt1-60-61", "fn", alphabet(U1, A1, [1, 0], [1, 60, 61]), 8 if q else 9),
         ("fn/3x2/w/dt1-61", "fn", alphabet(U3, A2, [0], [1, 61]), 6 if q else 7),
         ("fn/3x1/w/dt1-61", "fn", alphabet(U3, A1, [0], [1, 61]), 7 if q else 9),
+        ("fn/3x1/w/dt1-31", "fn", alphabet(U3, A1, [0], [1, 31]), 7 if q else 8),
         ("fn/2x2/rw/dt1-61", "fn", alphabet(["u1", "u2"], A2, [1, 0], [1, 61]), 5 if q else 6),
         ("imap/1x1/rw/dt1-61", "imap", alphabet(U1, A1, [1, 0], [1, 61]), 8 if q else 10),
         ("imap/1x1/w/dt1-50-51-61", "imap", alphabet(U1, A1, [0], [1, 50, 51, 61]), 8 if q else 9),
@@ -547,8 +548,8 @@ def extra(tier, seed):
     jobs = []
     owner = []
     for name, level, alpha, depth in enumerations(tier):
-        split = 1 if len(alpha) >= 12 else 2
-        if len(alpha) ** split < 16 and depth > 3:
+        split = 1
+        while len(alpha) ** split < 48 and split < depth - 1:
             split += 1
         for t in EN.make_tasks(level, alpha, depth, split):
             jobs.append(t)
